@@ -36,7 +36,7 @@ def dy(rng, lo=-2.0, hi=2.0, bits=5):
 def gen_case(rng, i):
     name = CLASSES[i % len(CLASSES)]
     D = 3 if name == "QuaternionRotation" else rng.choice([2, 3])
-    c = {"cls": name, "D": D, "as_parameter": rng.random() < 0.3}
+    c = {"cls": name, "D": D, "as_parameter": rng.random() < 0.4, "link": rng.random() < 0.5}
     if name == "Translation":
         c["params"] = [dy(rng) for _ in range(D)]
     elif name == "IsotropicScaling":
@@ -104,7 +104,7 @@ def correspondence(ctx):
              "Import ListNotations.", "Definition tol : Q := 1 # 1000000000."]
     names = []
     for i, (c, r) in enumerate(zip(cases, res)):
-        tag = f"{c['cls']}:{c['D']}:{'Parameter' if c.get('as_parameter') else 'tensor'}"
+        tag = f"{c['cls']}:{c['D']}:{'Parameter' if c.get('as_parameter') else 'tensor'}:{'link' if c.get('link') else 'nolink'}"
         dist[tag] = dist.get(tag, 0) + 1
         if "error" in r:
             failures.append({"case": c, "impl": r, "why": "implementation raised where the model is defined"})
@@ -131,7 +131,7 @@ def correspondence(ctx):
         as_param = rng.random() < 0.4
         link = rng.random() < 0.5 and not as_param
         acases.append({"size": rng.choice([[33, 29], [17, 21], [25, 25]]), "align": rng.random() < 0.5,
-                       "h": [dy(rng, -0.4, 0.4, 4), dy(rng, -0.4, 0.4, 4)], "steps": rng.choice([1, 2, 3, 4, 5, 6]),
+                       "h": [dy(rng, -0.4, 0.4, 4), dy(rng, -0.4, 0.4, 4)], "steps": rng.choice([0, 1, 2, 3, 4, 5, 6]),
                        "as_parameter": as_param, "link": link, "upd": rng.random() < 0.5, "pre_update": rng.random() < 0.5,
                        "inv_property": (not as_param) and rng.random() < 0.15,
                        # points well inside: the extrapolated border of the velocity field reaches inwards by the displacement
